@@ -253,7 +253,11 @@ func init() {
 		var ps *Stream
 		buf := make([]byte, max+64)
 		for size := 1; size <= max+2; size += step {
-			if size > max-3 && step > 1 {
+			if step > 1 && size+step > max-3 {
+				// the last strides are single steps: max-3 .. max+2 are always visited
+				if size < max-3 {
+					size = max - 3
+				}
 				step = 1
 			}
 			before := len(r.net.Tap)
